@@ -30,6 +30,21 @@ claimed = {
    text="As C05 for the type-system grammar (definitions, extensions, descriptions, constant directives and defaults) against ParseSchema; additionally ParseSchemas over 2–3 sources must equal the tree of the concatenated token sequence and every definition/extension must carry the BuiltIn flag of its own source. A recorded defect (enum values true/false/null accepted by the parser) is excused only where the grammar with exactly that defect emulated derives exactly the parser's tree.",
    note="Trusted: ref/refgrammar (self-checked; replayed against parser/schema_test.yml) and ref/reflex. Token classes stand for all tokens of their class; the empty document is undecided.",
    ref="DESIGN.md §4 C06"),
+ "C12": dict(
+   technique=T + "every executable sentence ≤7/8 tokens (full-name grammar) and ≤11/13 (G¹), every string value ≤3/4 symbols over 20 awkward characters and every block-string body ≤4/5 over 11 symbols in five value positions, profile documents with a comment at every gap — each × all 16 formatter configurations; metamorphic oracle parse∘format = id (canonical projection) and format∘parse∘format = format",
+   text="Every enumerated document is parsed by the real parser, formatted under every configuration (4 indents × comments × compacted), re-parsed and compared through the canonical projection (string values byte for byte; block and quoted strings of equal value identified), and re-formatted to check the fixpoint. The string alphabet holds quote, backslash, LF, CR, tab, C0 controls, DEL, NBSP, BOM, U+2028, non-BMP and non-printable non-BMP characters and triple quotes.",
+   note="Trusted: the parser as tree constructor (decided by C05), the projection walker. Comments are not part of the compared document.",
+   ref="DESIGN.md §4 C12"),
+ "C16": dict(
+   technique=T + "every token sequence ≤4/5 tokens over 26 / 38 token classes (comments and an invalid token included) × every limit 0…N+2, every sentence ≤7/9 (executable) and ≤6/7 (type-system) tokens plain and with a comment at every gap × every limit, and 28 short-token size families × n = 2^k to 1/8 MiB × limits {1,16,1024,65536} under deterministic step and call-depth bounds that do not mention the input size",
+   text="Exactness: for every enumerated input and every limit L the limited entry point succeeds ⇔ the unlimited one succeeds ∧ (L = 0 ∨ N ≤ L), N counted by the reference lexer with comments included, with an identical tree; monotone in L. Bounded work: on inputs with more than L tokens the instrumented step count and maximum call depth stay below 4000+600·L and 200+70·L however large or deeply nested the input is (measured ≈30 steps and ≈4 levels per unit of L on the unchanged tree).",
+   note="Trusted: ref/reflex for N, the instrumenter's step counter. Inputs with one giant token or one giant run of ignored characters are excluded from the work bound (any lexer scans them in full before counting).",
+   ref="DESIGN.md §4 C16"),
+ "C19": dict(
+   technique=T + "every executable sentence ≤7/8 tokens (full-name) and ≤11/13 (G¹), every selection tree of depth ≤3 over the five selection shapes in all orders, every ordered triple of 15 decorated selections as siblings (top level and nested), profile documents; oracle json.Unmarshal∘json.Marshal = id on the canonical projection",
+   text="Every enumerated document is parsed by the real parser, encoded with encoding/json, decoded back and compared through the canonical projection: selection kinds at every depth and in every order, names, aliases, arguments, all value kinds, directives, type conditions, variable definitions.",
+   note="Trusted: the parser as tree constructor (C05), encoding/json, the projection walker. Positions are not encoded (json:\"-\") and not compared.",
+   ref="DESIGN.md §4 C19"),
 }
 checks = []
 for i in ids:
